@@ -36,6 +36,9 @@ type Client struct {
 	ServiceUser bool
 	// DropIDTokenScopes: scopes RestrictAdditionalIdTokenScopes removes (nil = the scopes pass unchanged).
 	DropIDTokenScopes []string
+	// GlobGetterPoints: the two getters of GlobClient are yield points of internal/sched as well, like every getter
+	// of Client (zero value: they are not, as before).
+	GlobGetterPoints bool
 }
 
 func (c *Client) GetID() string          { sched.Point("client:GetID"); return c.ID }
@@ -109,8 +112,18 @@ func (c *Client) IsScopeAllowed(scope string) bool {
 // (the framework discovers the capability by interface assertion).
 type GlobClient struct{ *Client }
 
-func (g GlobClient) RedirectURIGlobs() []string           { return g.Client.RedirectGlobs }
-func (g GlobClient) PostLogoutRedirectURIGlobs() []string { return g.Client.PostLogoutGlobs }
+func (g GlobClient) RedirectURIGlobs() []string {
+	if g.Client.GlobGetterPoints {
+		sched.Point("client:RedirectURIGlobs")
+	}
+	return g.Client.RedirectGlobs
+}
+func (g GlobClient) PostLogoutRedirectURIGlobs() []string {
+	if g.Client.GlobGetterPoints {
+		sched.Point("client:PostLogoutRedirectURIGlobs")
+	}
+	return g.Client.PostLogoutGlobs
+}
 
 // AsOP returns the value to hand to the framework.
 func (c *Client) AsOP() op.Client {
